@@ -704,7 +704,11 @@ func (c *conn) dispatch(p *pkt, key []byte, cid uint32, req *Req) {
 		cl.mu.Lock()
 		rev, ep := cl.Rev, cl.RevEpoch
 		cl.mu.Unlock()
-		cl.logAdd(evlog.Rec{K: "sim.cfg", VB: -1, A: uint64(rev), B: uint64(ep), Cn: c.id})
+		isDCP := uint64(0)
+		if c.isDCP {
+			isDCP = 1
+		}
+		cl.logAdd(evlog.Rec{K: "sim.cfg", VB: -1, A: uint64(rev), B: uint64(ep), C: isDCP, Cn: c.id})
 		c.reply(p, 0, nil, nil, cl.configJSON(), 0)
 	case OpNoop:
 		c.reply(p, 0, nil, nil, nil, 0)
